@@ -84,6 +84,46 @@ DESC = {
  "C19-4": ("MakeValve: tx bucket capacity taken from rxRate", "UpRate > DownRate and a full tx bucket: burst of upRate/downRate seconds' worth towards the user"),
  "C20-3": ("ProcessRawConfig: negative NumConn no longer clamped (Singleplex with NumConn=-1)", "NumConn < 0 in either syntax: accepted, then makechan panic on the first stream"),
  "C20-4": ("single-pass unescape in ssvToJson with an off-by-one at the end of the string", "an escaped option string ending in an escape sequence (base64 '\\=\\=' last, no trailing ';'): rejected although the JSON form is accepted"),
+ "C01-5": ("recvBufferSizeLimit lowered from ~2 GiB to 4 MiB", "more than 4 MiB unread on one stream, one more frame for it, and the application closing that stream: the receive loop is parked holding recvM, Close waits for it, every other stream of the connection stalls"),
+ "C01-6": ("RouteTCP's first-packet read-deadline reset moved into a defer", "a proxied connection older than the stream timeout (300 s) although never idle: its read times out and the relay is torn down"),
+ "C02-5": ("parked frames copied into pooled 16640-byte buffers (payload truncated)", "an out-of-order arrival of a payload larger than 16640 bytes (the receive buffer takes 20480)"),
+ "C02-6": ("in-order fast path releases recvM before writing to the pipe", "two receive loops delivering frames k and k+1 of one stream at once: swapped bytes / close reported before the data is in the pipe"),
+ "C03-5": ("Stream.passiveClose takes writingM", "a local Write/ReadFrom stalled by back-pressure when the peer's closing notice arrives: the notice is never processed, the parked reader never returns"),
+ "C03-6": ("pipe closed by streamBuffer's fast path only; passive closeStream no longer closes the buffer", "the closing notice passing through the reorder heap (e.g. arrival orders 0,2c,1): Read blocks forever after the data"),
+ "C04-5": ("connReceiveBufferSize derived from the local MsgOnWireSizeLimit", "a peer with the default limit sending a padded full frame (16640 bytes) to a session configured with 16401: short buffer, session torn down"),
+ "C04-6": ("header nonce taken from the first 8 bytes of the tag instead of the last 8 of the message", "any AEAD method and a peer that is not the same build (wire format silently changed)"),
+ "C05-5": ("client handshake drains ChangeCipherSpec and the certificate record with one raw Read", "a server data record arriving in the same segment as the reply, or the reply cut inside those records"),
+ "C05-6": ("TLSConn.Read loops over zero-length records", "a message of length exactly 0: swallowed, the next message is returned in its place"),
+ "C06-5": ("ServerHello assembled in a shared package-level template", "two direct handshakes overlapping inside composeServerHello: a client gets key material sealed for the other"),
+ "C06-6": ("unordered flag read from the reserved byte next to it", "UDP: true (the server decodes ordered)"),
+ "C07-5": ("decryptClientInfo's plaintext comes from a sync.Pool; ClientInfo.UID aliases it", "another first packet decrypted between AuthFirstPacket and the authorisation of ci.UID"),
+ "C07-6": ("proxy-method field cut at the first NUL instead of trimmed", "a name with an embedded NUL whose prefix is a served method (\"ss\\x00x\")"),
+ "C08-5": ("cache entries lapse lazily by arrival time +- tolerance", "a client clock ahead of the server by m and a replay 180..180+m s after the first presentation"),
+ "C08-6": ("AuthFirstPacket forgets the random of every refused packet - also of a refused replay", "three presentations: accepted, refused (entry erased), accepted again"),
+ "C09-5": ("HTTP path returns the offset of the start of the overflowing header line", "a GET with more than 3000 bytes of header: the partial line is consumed but not replayed"),
+ "C09-6": ("first-packet buffer from a free list, returned right after AuthFirstPacket succeeds", "a valid hello rejected after authentication (unknown method / unauthorised UID) while another connection is being read: the target receives the other peer's bytes"),
+ "C10-5": ("server reply flight built in a pooled bytes.Buffer that is Put before the write", "two handshakes overlapping: reply bytes of the other connection, wrong session id echo, broken third record"),
+ "C10-6": ("AddRecordLayer returns a slice into a pooled buffer", "two client handshakes overlapping: a ClientHello overwritten by the other client's"),
+ "C11-5": ("deobfuscate's 'extra length 0' case applies before the AEAD check", "decrypted header byte 13 equal to 0 (attacker XORs 0x10 into it on an unpadded frame): accepted without authentication"),
+ "C11-6": ("a failed decode puts the pooled frame back twice", "one undecodable message, later two valid frames handled by two receive loops at once: one lost, one processed twice"),
+ "C12-5": ("Session.Close takes each stream's writingM while sweeping under streamsM", "Session.Close sweeping while a Stream.Close is sending its closing frame: lock-order deadlock"),
+ "C12-6": ("Stream.Write unlocks by hand and forgets to on the send-error return", "a Write that meets the fault, then any further Write/Close on that stream: blocked forever"),
+ "C13-5": ("the nil placeholder of a closed stream is deleted after InactivityTimeout", "a peer frame for that stream arriving later: the stream is re-created and its numbering restarts at 0"),
+ "C13-6": ("session-closing notice sent (re-obfuscated) on every connection", "an actively closed session with two or more connections: several messages numbered (0xffffffff, 0)"),
+ "C14-5": ("unordered size check compares with the send buffer size (16640)", "a datagram of 16372..16640 bytes: accepted and split"),
+ "C14-6": ("RouteUDP's stream table keyed on the source port only", "two sources with the same port and different addresses"),
+ "C15-5": ("a failed reply write on the connection that created the session closes that session", "a sibling connection that joined meanwhile keeps key K1, the next one creates a second session with K2"),
+ "C15-6": ("the database is not asked for a user's first session", "SessionsCap = 0, or credit/expiry changed between GetUser and the first GetSession"),
+ "C16-5": ("commitUpdate clears the queue only after a successful upload, by key", "a last-session closure or a second round while the upload is in flight: usage lost or charged twice"),
+ "C16-6": ("updateUsageQueue skips users whose counters are zero", "an idle user deleted / expired / out of credit: never reported, never cut off"),
+ "C17-5": ("GetUser authenticates outside the table lock and inserts without re-check", "two first connections of one user overlapping in AuthenticateUser: second record overwrites the first"),
+ "C17-6": ("updateUsageQueue holds the table read lock and takes the queue lock per entry", "two rounds and a table writer: three-party deadlock (writer-preferring RWMutex)"),
+ "C18-5": ("DeleteUser uses Cursor.Seek and deletes whatever key it lands on", "DELETE of an absent UID while a larger UID exists (repeated DELETE): the other user is removed"),
+ "C18-6": ("ListAllUsers copies UIDs into a [16]byte", "a UID that is not 16 bytes long: listed padded / truncated"),
+ "C19-5": ("limiter waits capped at 1 s (WaitMaxDuration), result dropped", "more than one second of backlog on the shared bucket: frames pass unmetered"),
+ "C19-6": ("buckets refilled every millisecond with the per-tick amount rounded up", "a configured rate that is not a multiple of 1000 B/s and a sender backlogged beyond the burst"),
+ "C20-5": ("RemotePort default moved into ParseConfig", "plugin mode without RemotePort in the options: SS_REMOTE_PORT is ignored"),
+ "C20-6": ("ServerName=random resolved once in ProcessRawConfig", "more than one connection: all carry the same generated name"),
 }
 head = subprocess.check_output(["git","-C","/repo","rev-parse","--short","HEAD"]).decode().strip()
 index = []
